@@ -81,6 +81,26 @@ CATCH = {
  "C18-r4": ([], [], False, "NOT CAUGHT: the change is in saito-rust's HTTP route, which the simulator replaces by Sim::serve_fetch (DESIGN section 7)"),
  "C19-r4": (["C19"], ["C19|balance-differs-from-unspent-sum|receive","C19|balance-differs-from-unspent-sum|block-plain"], True, ""),
  "C20-r4": ([], [], False, "NOT CAUGHT: the change is in saito-spammer, which the simulator does not run (DESIGN section 7)"),
+ "C01-r5": (["C04"], ["C04|trace-left|tip"], True, "caught by C04's ring family (same line as C03-r3/C13-r3); C01's worlds do not wrap the ring"),
+ "C02-r5": (["C13","C02"], ["C13|expired-output-spendable|pool","C13|panic|blockchain.rs:cannot_continue_with_invalid_total_supply","C02|accepted|spend-at-window-edge|pool","C02|panic|blockchain.rs:cannot_continue_with_invalid_total_supply"], False, "caught by C13 as found; C02: hostile kind spend-at-window-edge"),
+ "C03-r5": (["C03"], ["C03|panic|blockchain.rs:cannot_continue_with_invalid_total_supply"], True, ""),
+ "C04-r5": (["C04"], ["C04|trace-left|index"], False, "C04: the known-finding exemption of the ring family now covers only the slot of the block that was wound and unwound (K, when the tip was K-1); before, it also absorbed the slot of K+1"),
+ "C05-r5": (["C05"], ["C05|moved|sparse-tickets-at-tip","C05|moved|sparse-tickets-in-interior"], True, ""),
+ "C06-r5": (["C06"], ["C06|accepted-under-same-hash|swap-two-txs","C06|accepted-under-same-hash|replace-tx-equal-fee"], False, "C06: leaf-limit family (producer block with exactly MAX_MERKLE_TREE_LEAVES / one fewer leaves)"),
+ "C07-r5": (["C07"], ["C07|producer-refused-own-block|chain|atr-multiplier-1","C07|producer-refused-own-block|chain|no-atr","C07|producer-refused-own-block|network|other"], True, ""),
+ "C08-r5": (["C08"], ["C08|payout|ticket-does-not-solve-parent|solved-against-genesis","C08|payout|ticket-does-not-solve-parent|solved-against-grandparent","C08|payout|ticket-does-not-solve-parent|solved-against-made-up-hash"], False, "C08: rival block with a golden ticket that does not solve the parent's lottery, at difficulty > 0 (ticket-in-every-block pattern)"),
+ "C09-r5": (["C09"], ["C09|decode-fails|ghost-chain","C09|decode-fails|message|ghost-chain"], True, ""),
+ "C10-r5": (["C10"], ["C10|panic|decoder|msg|handshake.rs:range_end_index_out_of_range"], True, ""),
+ "C11-r5": (["C20"], ["C20|deadlock|consensus:blockchain+config>wallet|verification:wallet>blockchain","C20|order|wallet-held-then-blockchain|verification_thread.rs<-verification_thread.rs"], True, "caught by C20 (lock order / deadlock is its clause); C11 runs each handler to completion and cannot see a stall that needs two handlers interleaved between lock requests"),
+ "C12-r5": (["C12"], ["C12|restart-after-recovery|tip-differs|stale-files-kept"], True, ""),
+ "C13-r5": (["C13","C02"], ["C13|panic|blockchain.rs:cannot_continue_with_invalid_total_supply","C02|panic|blockchain.rs:cannot_continue_with_invalid_total_supply"], True, ""),
+ "C14-r5": (["C14"], ["C14|pool|stale-reservation-after|peer-confirm","C14|pool|stale-reservation-after|peer-conflict","C14|pool|stale-reservation-after|peer-partial","C14|pool|stale-reservation-after|reorg"], True, ""),
+ "C15-r5": (["C15","C16"], ["C15|not-converged","C16|announced-block-never-requested"], True, ""),
+ "C16-r5": (["C16"], ["C16|lower-height-skipped"], True, ""),
+ "C17-r5": (["C17"], ["C17|connected-despite-incompatible-version"], False, "C17: monitor clause for incompatible core versions; a third of the runs put A and/or B in lite mode"),
+ "C18-r5": (["C18"], ["C18|touching-tx-missing","C18|wire|touching-tx-outputs-differ"], True, ""),
+ "C19-r5": (["C19"], ["C19|built-tx|does-not-validate|spend","C19|built-tx|does-not-validate|spend-all","C19|built-tx|does-not-validate|spend-multi"], False, "C19: reorganisations of depth 1..prune depth+2 with prune depth 1/2/3/8 (unwinding blocks whose bodies were dropped)"),
+ "C20-r5": (["C20"], ["C20|order|peers-held-then-blockchain|routing_thread.rs<-routing_thread.rs"], True, ""),
  "C20": (["C20"], ["C20|order|wallet-held-then-blockchain|verification_thread.rs<-verification_thread.rs","C20|deadlock|consensus:blockchain+config>wallet|verification:wallet>blockchain"], True, ""),
 }
 extra = {}
